@@ -163,6 +163,7 @@ macro_rules! run_codec {
             let k = s.cut.min(extra.len().saturating_sub(1));
             data.extend_from_slice(&extra[..k]);
         }
+        let budget = 100 + 4 * data.len() * (s.rd.len() + 2);
         let rdp: Vec<usize> = if s.rd.iter().any(|&x| x > 0) { s.rd.clone() } else { vec![] };
         let reader = FaultyReader { data, pos: 0, rd: rdp, rd_pos: 0, kind: KINDS[s.kind], failed_reads: 0 };
         let mut r = tarpc::serde_transport::new(
@@ -172,7 +173,7 @@ macro_rules! run_codec {
         let mut obs: Vec<String> = vec![];
         let mut tags: Vec<String> = vec![];
         let mut after = 0;
-        for _ in 0..(20 + 4 * s.ids.len() + 40 * (s.rd.len() + 1)) {
+        for _ in 0..budget {
             match Pin::new(&mut r).poll_next(&mut cx) {
                 Poll::Pending => {
                     if !tags.contains(&"pending".to_string()) {
